@@ -296,8 +296,9 @@ func ZZ_C17_FailedOpKeepsAttachment() {
 	s, fs := ZZServer("open", 2)
 	r := s.r
 	r.mode = types.RW
-	op := zzConcretize(zzChoice("op", 8))
+	op := zzConcretize(zzChoice("op", 10))
 	c0 := zzCell()
+	entries0 := len(fs.Entries)
 	fs.Steps = 0
 	fs.FailAt = zzConcretize(zzChoice("failAt", 40))
 	zzTrapFatal()
@@ -326,9 +327,15 @@ func ZZ_C17_FailedOpKeepsAttachment() {
 		case 6:
 			opname = "RemoveDiffDisk"
 			err = s.RemoveDiffDisk("volume-snap-a.img")
-		default:
+		case 7:
 			opname = "Close"
 			err = s.Close()
+		case 8:
+			opname = "Delete"
+			err = s.Delete()
+		default:
+			opname = "DeleteAll"
+			err = s.DeleteAll()
 		}
 	})
 	if !fs.Failed {
@@ -341,6 +348,30 @@ func ZZ_C17_FailedOpKeepsAttachment() {
 	zzReach("C17.failed-op.injected")
 	if err != nil {
 		zzReach("C17.failed-op.reported")
+	}
+	if opname == "Delete" || opname == "DeleteAll" {
+		// a delete closes the replica first and then unlinks its files.  Once unlinking has
+		// begun the server no longer has a replica: it does not report open / dirty /
+		// rebuilding for files that are going away (those states advertise the actions of an
+		// open replica and never "open" again), and no metadata update writes a deleted
+		// replica's volume.meta back.  (When the close itself failed nothing was unlinked and
+		// the replica is still held, as after a failed Close.)
+		if len(fs.Entries) < entries0 {
+			zzReach("C17.failed-delete.unlinking-began")
+			st, _ := s.Status()
+			zzAssert(st != Open && st != Dirty && st != Rebuilding, "C17.server-reports-"+string(st)+"-for-a-replica-being-deleted-after-failed-"+opname)
+			n := len(fs.Entries)
+			zzAssert(s.SetCheckpoint("volume-snap-a.img") != nil, "C17.SetCheckpoint-accepted-after-failed-"+opname)
+			zzAssert(s.SetRebuilding(true) != nil, "C17.SetRebuilding-accepted-after-failed-"+opname)
+			zzAssert(len(fs.Entries) <= n, "C17.files-of-a-deleted-replica-written-back-after-failed-"+opname)
+			buf := make([]byte, 4096)
+			_, werr := s.WriteAt(buf, 0)
+			zzAssert(werr != nil, "C17.write-accepted-after-failed-"+opname)
+		} else {
+			zzReach("C17.failed-delete.nothing-unlinked")
+		}
+		zzAssert(zzLockDepth(&s.RWMutex) == 0, "C17.failed-op.lock-left-held")
+		return
 	}
 	if opname == "Close" {
 		// a close that failed half-way (data files closed, metadata rewrite failed): the
